@@ -40,6 +40,12 @@ type Options struct {
 	VMFile string
 	// Extra files replaced verbatim: repo-relative path -> replacement path.
 	Replace map[string]string
+	// GlobalPkgs: package directories (relative to Repo) in which every use of
+	// a package-level variable inside a function body gets an Access marker.
+	GlobalPkgs []string
+	// GoFunctionMarks: mark the methods of *GoFunction and the entry of
+	// (*GoCont).RunInThread (read marker + scheduling point).
+	GoFunctionMarks bool
 	// AllowSync: files that keep their own sync primitives (not driven by the
 	// scheduler); the caller must argue why no second goroutine reaches them.
 	AllowSync []string
@@ -119,7 +125,7 @@ func Generate(o Options) (overlayPath string, summary []string, err error) {
 		if e != nil {
 			return "", nil, e
 		}
-		n := w.markThreadFields(o.ThreadFields)
+		n := w.markThreadFields(o.ThreadFields, "thread.")
 		m := w.markVM()
 		summary = append(summary, fmt.Sprintf("%s: %d thread-field access markers, %d vm markers", o.VMFile, n, m))
 		if m == 0 {
@@ -145,6 +151,34 @@ func Generate(o Options) (overlayPath string, summary []string, err error) {
 		if !w.replaceNow() {
 			w.failf(w.f.Pos(), "func now() uint64 not found")
 		}
+	}
+	if o.GoFunctionMarks {
+		w, e := load("runtime/gofunction.go")
+		if e != nil {
+			return "", nil, e
+		}
+		n := w.markThreadFields([]string{"safetyFlags"}, "gofunction.")
+		w2, e := load("runtime/gocont.go")
+		if e != nil {
+			return "", nil, e
+		}
+		ok := w2.insertAtEntry("GoCont", "RunInThread", func(recv string) []ast.Stmt {
+			return []ast.Stmt{
+				accessCall(&ast.SelectorExpr{X: ast.NewIdent(recv), Sel: ast.NewIdent("GoFunction")}, "gofunction.safetyFlags", false, "GoCont.RunInThread"),
+				&ast.ExprStmt{X: &ast.CallExpr{Fun: vsel("Point"), Args: []ast.Expr{&ast.BasicLit{Kind: token.STRING, Value: strconv.Quote("gofunc")}}}},
+			}
+		})
+		if n == 0 || !ok {
+			w.failf(w.f.Pos(), "GoFunction methods / GoCont.RunInThread not found")
+		}
+		summary = append(summary, fmt.Sprintf("runtime/gofunction.go: %d GoFunction.safetyFlags access markers; GoCont.RunInThread entry marker+point", n))
+	}
+	for _, dir := range o.GlobalPkgs {
+		n, names, e := markGlobals(o, dir, load)
+		if e != nil {
+			return "", nil, e
+		}
+		summary = append(summary, fmt.Sprintf("%s: %d package-level variable access markers (%s)", dir, n, strings.Join(names, " ")))
 	}
 	// any other concurrency in runtime/ and lib/ that we do not drive?
 	if e := checkNoOtherConcurrency(o, files); e != nil {
@@ -630,7 +664,7 @@ func accessCall(obj ast.Expr, name string, write bool, site string) ast.Stmt {
 
 // markThreadFields inserts Access markers before every statement whose header
 // mentions X.<field> for the monitored Thread fields.
-func (w *fileRW) markThreadFields(fields []string) int {
+func (w *fileRW) markThreadFields(fields []string, prefix string) int {
 	want := map[string]bool{}
 	for _, f := range fields {
 		want[f] = true
@@ -714,7 +748,7 @@ func (w *fileRW) markThreadFields(fields []string) int {
 		for _, st := range list {
 			for _, u := range headerUses(st) {
 				site := fmt.Sprintf("%s.%s:%d", curFunc, u.field, w.fset.Position(st.Pos()).Line)
-				out = append(out, accessCall(u.obj, "thread."+u.field, u.write, site))
+				out = append(out, accessCall(u.obj, prefix+u.field, u.write, site))
 				w.usedV = true
 				count++
 			}
@@ -801,7 +835,29 @@ func (w *fileRW) markVM() int {
 // markCtxMethods inserts an Access marker at the entry of every method of
 // *runtimeContextManager.  A method is a read if its body neither assigns
 // through the receiver nor calls another method on the receiver.
-func (w *fileRW) markCtxMethods() int {
+func (w *fileRW) markCtxMethods() int { return w.markMethods("runtimeContextManager", "ctx") }
+
+// insertAtEntry prepends statements to the body of method recvType.name.
+func (w *fileRW) insertAtEntry(recvType, name string, mk func(recv string) []ast.Stmt) bool {
+	for _, d := range w.f.Decls {
+		fd, ok := d.(*ast.FuncDecl)
+		if !ok || fd.Recv == nil || fd.Body == nil || fd.Name.Name != name || len(fd.Recv.List) != 1 || len(fd.Recv.List[0].Names) == 0 {
+			continue
+		}
+		st, ok := fd.Recv.List[0].Type.(*ast.StarExpr)
+		if !ok || !isIdent(st.X, recvType) {
+			continue
+		}
+		fd.Body.List = append(mk(fd.Recv.List[0].Names[0].Name), fd.Body.List...)
+		w.usedV = true
+		return true
+	}
+	return false
+}
+
+// markMethods inserts an Access marker at the entry of every method with
+// receiver *typeName.
+func (w *fileRW) markMethods(typeName, locName string) int {
 	n := 0
 	for _, d := range w.f.Decls {
 		fd, ok := d.(*ast.FuncDecl)
@@ -809,7 +865,7 @@ func (w *fileRW) markCtxMethods() int {
 			continue
 		}
 		st, ok := fd.Recv.List[0].Type.(*ast.StarExpr)
-		if !ok || !isIdent(st.X, "runtimeContextManager") || len(fd.Recv.List[0].Names) == 0 {
+		if !ok || !isIdent(st.X, typeName) || len(fd.Recv.List[0].Names) == 0 {
 			continue
 		}
 		recv := fd.Recv.List[0].Names[0].Name
@@ -833,7 +889,7 @@ func (w *fileRW) markCtxMethods() int {
 			}
 			return true
 		})
-		mark := accessCall(ast.NewIdent(recv), "ctx", write, "ctx."+fd.Name.Name)
+		mark := accessCall(ast.NewIdent(recv), locName, write, locName+"."+fd.Name.Name)
 		fd.Body.List = append([]ast.Stmt{mark}, fd.Body.List...)
 		w.usedV = true
 		n++
@@ -920,4 +976,267 @@ func checkNoOtherConcurrency(o Options, done map[string]*fileRW) error {
 		return fmt.Errorf("concurrency constructs outside the instrumented files (the scheduler would not control them):\n  %s", strings.Join(bad, "\n  "))
 	}
 	return nil
+}
+
+// markGlobals marks every use of a package-level variable of the package in
+// dir inside function bodies.  Identifier resolution is go/parser's (plus
+// ast.NewPackage for cross-file package scope), so locals that shadow a global
+// are not mistaken for it.
+func markGlobals(o Options, dir string, load func(string) (*fileRW, error)) (int, []string, error) {
+	ents, err := os.ReadDir(filepath.Join(o.Repo, dir))
+	if err != nil {
+		return 0, nil, err
+	}
+	var ws []*fileRW
+	for _, ent := range ents {
+		nm := ent.Name()
+		if ent.IsDir() || !strings.HasSuffix(nm, ".go") || strings.HasSuffix(nm, "_test.go") {
+			continue
+		}
+		w, e := load(filepath.Join(dir, nm))
+		if e != nil {
+			return 0, nil, e
+		}
+		ws = append(ws, w)
+	}
+	// package-level variable names -> declared (by name; files with exclusive
+	// build tags may declare the same name twice, which is fine here)
+	globals := map[string]bool{}
+	for _, w := range ws {
+		for _, d := range w.f.Decls {
+			gd, ok := d.(*ast.GenDecl)
+			if !ok || gd.Tok != token.VAR {
+				continue
+			}
+			for _, sp := range gd.Specs {
+				for _, nm := range sp.(*ast.ValueSpec).Names {
+					if nm.Name != "_" {
+						globals[nm.Name] = true
+					}
+				}
+			}
+		}
+	}
+	pkgName := filepath.Base(dir)
+	total := 0
+	used := map[string]bool{}
+	for _, w := range ws {
+		// An identifier refers to the package-level variable iff its name is a
+		// global and the parser did not resolve it to a local object (file-level
+		// resolution leaves cross-file package identifiers unresolved, and
+		// resolves same-file ones to the package-level ValueSpec).
+		isGlobal := func(id *ast.Ident) bool {
+			if !globals[id.Name] {
+				return false
+			}
+			if id.Obj == nil {
+				return true
+			}
+			if id.Obj.Kind != ast.Var {
+				return false
+			}
+			vs, ok := id.Obj.Decl.(*ast.ValueSpec)
+			if !ok {
+				return false
+			}
+			for _, d := range w.f.Decls {
+				if gd, ok := d.(*ast.GenDecl); ok && gd.Tok == token.VAR {
+					for _, sp := range gd.Specs {
+						if sp == ast.Spec(vs) {
+							return true
+						}
+					}
+				}
+			}
+			return false
+		}
+		n := w.markIdentUses(isGlobal, func(id *ast.Ident) string {
+			used[id.Name] = true
+			return "global:" + pkgName + "." + id.Name
+		})
+		total += n
+	}
+	var names []string
+	for k := range used {
+		names = append(names, k)
+	}
+	sortStrings(names)
+	return total, names, nil
+}
+
+func sortStrings(a []string) {
+	for i := 1; i < len(a); i++ {
+		for j := i; j > 0 && a[j] < a[j-1]; j-- {
+			a[j], a[j-1] = a[j-1], a[j]
+		}
+	}
+}
+
+// markIdentUses inserts, before every statement whose header uses an
+// identifier accepted by match (not as a selector's field name), an Access
+// marker for it.
+func (w *fileRW) markIdentUses(match func(*ast.Ident) bool, loc func(*ast.Ident) string) int {
+	count := 0
+	var curFunc string
+	type use struct {
+		id    *ast.Ident
+		write bool
+	}
+	headerUses := func(st ast.Stmt) []use {
+		var uses []use
+		seen := map[string]bool{}
+		add := func(id *ast.Ident, write bool) {
+			k := id.Name
+			if write {
+				k += "!"
+			}
+			if seen[k] {
+				return
+			}
+			seen[k] = true
+			uses = append(uses, use{id, write})
+		}
+		var scan func(n ast.Node, write bool)
+		scan = func(n ast.Node, write bool) {
+			if n == nil {
+				return
+			}
+			ast.Inspect(n, func(m ast.Node) bool {
+				switch y := m.(type) {
+				case *ast.BlockStmt, *ast.FuncLit:
+					return false
+				case *ast.SelectorExpr:
+					scan(y.X, write)
+					return false // never look at the field name
+				case *ast.KeyValueExpr:
+					// struct literal keys are field names, not variables
+					scan(y.Value, false)
+					if _, isId := y.Key.(*ast.Ident); !isId {
+						scan(y.Key, false)
+					}
+					return false
+				case *ast.UnaryExpr:
+					if y.Op == token.AND {
+						scan(y.X, true)
+						return false
+					}
+				case *ast.Ident:
+					if match(y) {
+						add(y, write)
+					}
+				}
+				return true
+			})
+		}
+		switch x := st.(type) {
+		case *ast.AssignStmt:
+			for _, l := range x.Lhs {
+				if x.Tok == token.DEFINE {
+					continue
+				}
+				scan(l, true)
+			}
+			for _, r := range x.Rhs {
+				scan(r, false)
+			}
+		case *ast.IncDecStmt:
+			scan(x.X, true)
+		case *ast.IfStmt:
+			if x.Init != nil {
+				if as, ok := x.Init.(*ast.AssignStmt); ok {
+					for _, r := range as.Rhs {
+						scan(r, false)
+					}
+				}
+			}
+			scan(x.Cond, false)
+		case *ast.SwitchStmt:
+			scan(x.Tag, false)
+		case *ast.ForStmt:
+			scan(x.Cond, false)
+		case *ast.RangeStmt:
+			scan(x.X, false)
+		case *ast.ReturnStmt, *ast.ExprStmt, *ast.DeferStmt, *ast.GoStmt, *ast.SendStmt:
+			scan(x, false)
+		case *ast.DeclStmt:
+			if gd, ok := x.Decl.(*ast.GenDecl); ok {
+				for _, sp := range gd.Specs {
+					if vs, ok := sp.(*ast.ValueSpec); ok {
+						for _, v := range vs.Values {
+							scan(v, false)
+						}
+					}
+				}
+			}
+		}
+		return uses
+	}
+	var doList func(list []ast.Stmt) []ast.Stmt
+	var doStmt func(st ast.Stmt)
+	doList = func(list []ast.Stmt) []ast.Stmt {
+		var out []ast.Stmt
+		for _, st := range list {
+			for _, u := range headerUses(st) {
+				site := fmt.Sprintf("%s:%d", curFunc, w.fset.Position(st.Pos()).Line)
+				out = append(out, accessCall(ast.NewIdent("nil"), loc(u.id), u.write, site))
+				w.usedV = true
+				count++
+			}
+			doStmt(st)
+			out = append(out, st)
+		}
+		return out
+	}
+	doFuncLits := func(n ast.Node) {
+		ast.Inspect(n, func(m ast.Node) bool {
+			if fl, ok := m.(*ast.FuncLit); ok {
+				doStmt(fl.Body)
+				return false
+			}
+			return true
+		})
+	}
+	doStmt = func(st ast.Stmt) {
+		switch x := st.(type) {
+		case *ast.BlockStmt:
+			x.List = doList(x.List)
+		case *ast.IfStmt:
+			doStmt(x.Body)
+			if x.Else != nil {
+				doStmt(x.Else)
+			}
+		case *ast.ForStmt:
+			doStmt(x.Body)
+		case *ast.RangeStmt:
+			doStmt(x.Body)
+		case *ast.LabeledStmt:
+			doStmt(x.Stmt)
+		case *ast.SwitchStmt:
+			for _, cc := range x.Body.List {
+				c := cc.(*ast.CaseClause)
+				c.Body = doList(c.Body)
+			}
+		case *ast.TypeSwitchStmt:
+			for _, cc := range x.Body.List {
+				c := cc.(*ast.CaseClause)
+				c.Body = doList(c.Body)
+			}
+		case *ast.SelectStmt:
+			for _, cc := range x.Body.List {
+				c := cc.(*ast.CommClause)
+				c.Body = doList(c.Body)
+			}
+		case *ast.ExprStmt, *ast.AssignStmt, *ast.ReturnStmt, *ast.DeferStmt, *ast.GoStmt, *ast.DeclStmt:
+			doFuncLits(x)
+		}
+	}
+	for _, d := range w.f.Decls {
+		fd, ok := d.(*ast.FuncDecl)
+		if !ok || fd.Body == nil || fd.Name.Name == "init" {
+			continue
+		}
+		curFunc = fd.Name.Name
+		doStmt(fd.Body)
+	}
+	return count
 }
